@@ -415,6 +415,347 @@ def n2_alias_locals(fnode, keep=(), rebound=()):
     return True
 
 
+
+_MULTI = ast.Constant(value='<several returns in tail position>')
+
+
+def _always_returns(stmts):
+    if not stmts:
+        return False
+    last = stmts[-1]
+    if isinstance(last, ast.Return):
+        return True
+    if isinstance(last, ast.If):
+        return _always_returns(last.body) and _always_returns(last.orelse)
+    return False
+
+
+def _has_return(stmts):
+    return any(isinstance(x, ast.Return) for st in stmts
+               for x in _own_walk(st))
+
+
+def _tail_returns(stmts):
+    """`S; if c: return A` / `T; return B`  ->  `S; if c: return A` /
+    `else: T; return B`: an equivalent body in which every `return` is the
+    last statement executed (only `if` nests them); None when a return sits
+    in a loop, a `try` or a `with`, or the body can fall off its end"""
+    out = []
+    for k, st in enumerate(stmts):
+        if isinstance(st, ast.Return):
+            if st.value is None:
+                return None
+            out.append(st)
+            return out
+        if not _has_return([st]):
+            out.append(st)
+            continue
+        if not isinstance(st, ast.If):
+            return None
+        rest = list(stmts[k + 1:])
+        b_ret, o_ret = _always_returns(st.body), _always_returns(st.orelse)
+        if b_ret and o_ret:
+            body, orelse = _tail_returns(st.body), _tail_returns(st.orelse)
+        elif b_ret and not _has_return(st.orelse):
+            body = _tail_returns(st.body)
+            orelse = _tail_returns(list(st.orelse) + rest)
+        elif o_ret and not _has_return(st.body):
+            body = _tail_returns(list(st.body) + rest)
+            orelse = _tail_returns(st.orelse)
+        else:
+            return None
+        if body is None or orelse is None:
+            return None
+        out.append(ast.copy_location(
+            ast.If(test=st.test, body=body, orelse=orelse), st))
+        return out
+    return None
+
+
+# ------------------------------------------------------------------ N2b -------
+
+_PURE_BUILTINS = {'len', 'range', 'enumerate', 'isinstance', 'bytes', 'int',
+                  'min', 'max', 'ord', 'chr', 'bool', 'abs'}
+
+
+def _name_occ(node, name):
+    return [x for x in ast.walk(node)
+            if isinstance(x, ast.Name) and x.id == name]
+
+
+def _outer_refs(node, name):
+    """Name nodes of `node` that refer to the enclosing function's variable
+    `name` (a comprehension that binds the name itself hides it)"""
+    out = []
+
+    def rec(n):
+        if isinstance(n, (ast.ListComp, ast.SetComp, ast.GeneratorExp,
+                          ast.DictComp)):
+            binds = any(isinstance(x, ast.Name) and x.id == name
+                        for g in n.generators for x in ast.walk(g.target))
+            if binds:
+                rec(n.generators[0].iter)
+                return
+        if isinstance(n, ast.Name) and n.id == name:
+            out.append(n)
+        for c in ast.iter_child_nodes(n):
+            rec(c)
+    rec(node)
+    return out
+
+
+def _node_parts(n):
+    """the expressions a CFG node evaluates"""
+    if n.ast is None:
+        return []
+    if n.kind == 'iter':
+        return [n.ast.iter, n.ast.target]
+    if n.kind == 'with':
+        return list(n.ast.items)
+    if n.kind == 'handler':
+        return [n.ast.type] if n.ast.type is not None else []
+    if n.kind == 'except':
+        return []
+    return [n.ast]
+
+
+def _dead_after(graph, st, var):
+    """True when, on every CFG path leaving statement `st`, `var` is re-bound
+    before it is read (or the function ends)"""
+    starts = [n for n in graph.nodes if n.stmt is st and n.ast is st]
+    if not starts:
+        return False
+    seen = set()
+    stack = [m for n in starts for (m, _l) in n.succ]
+    while stack:
+        n = stack.pop()
+        if n.id in seen:
+            continue
+        seen.add(n.id)
+        loads = stores = False
+        for part in _node_parts(n):
+            if isinstance(n.ast, ast.AugAssign) and isinstance(
+                    n.ast.target, ast.Name) and n.ast.target.id == var:
+                loads = True
+            for x in _outer_refs(part, var):
+                if isinstance(x.ctx, ast.Load):
+                    loads = True
+                else:
+                    stores = True
+        if n.kind == 'handler' and n.ast is not None and \
+                getattr(n.ast, 'name', None) == var:
+            stores = True
+        if loads:
+            return False
+        if stores:
+            continue
+        stack.extend(m for (m, _l) in n.succ)
+    return True
+
+
+def n2b_rename_copies(fnode, keep=()):
+    """a NEW local that only carries a value into or out of a run of
+    statements (what splicing a helper with an assigned parameter or a
+    result variable leaves):
+
+      T = V; ..T..            (V dead afterwards, not mentioned in the run)
+                                                   -> ..V..
+      T = E; ..T..; V = T     (V not mentioned in the run)
+                                                   -> V = E; ..V..
+      T = o.a; ..T..; o.a = T (no call and no .a in the run)
+                                                   -> ..o.a..
+    """
+    params = {a.arg for a in fnode.args.args + fnode.args.kwonlyargs +
+              fnode.args.posonlyargs}
+    if fnode.args.vararg:
+        params.add(fnode.args.vararg.arg)
+    if fnode.args.kwarg:
+        params.add(fnode.args.kwarg.arg)
+    # names mentioned by nested scopes are left alone
+    nested = set()
+    for x in ast.walk(fnode):
+        if x is not fnode and isinstance(
+                x, (ast.FunctionDef, ast.AsyncFunctionDef, ast.Lambda,
+                    ast.ClassDef)):
+            for y in ast.walk(x):
+                if isinstance(y, ast.Name):
+                    nested.add(y.id)
+        elif isinstance(x, (ast.Global, ast.Nonlocal)):
+            nested.update(x.names)
+    graph = [None]
+    locals_f = _local_names(fnode) | params
+
+    def cfg():
+        if graph[0] is None:
+            from . import cfg as _cfg
+            try:
+                graph[0] = _cfg.CFG(fnode)
+            except Exception:
+                graph[0] = False
+        return graph[0]
+
+    def is_new(nm):
+        return nm not in keep and nm not in params and nm not in nested
+
+    def total(nm):
+        return len(_name_occ(fnode, nm))
+
+    def rename(stmts, old, new_expr):
+        class R(ast.NodeTransformer):
+            def visit_Name(self, n):
+                if n.id != old:
+                    return n
+                r = clone(new_expr)
+                for x in ast.walk(r):
+                    ast.copy_location(x, n)
+                r.ctx = type(n.ctx)()
+                return r
+        return [R().visit(st) for st in stmts]
+
+    def split_tuples(stmts):
+        out, ch = [], False
+        for st in stmts:
+            if isinstance(st, ast.Assign) and len(st.targets) == 1 and \
+                    isinstance(st.targets[0], ast.Tuple) and \
+                    isinstance(st.value, ast.Tuple) and \
+                    len(st.targets[0].elts) == len(st.value.elts) and \
+                    all(isinstance(v, ast.Name) and is_new(v.id)
+                        for v in st.value.elts) and \
+                    len({v.id for v in st.value.elts}) == len(
+                        st.value.elts) and \
+                    all(isinstance(t, (ast.Name, ast.Attribute)) and not any(
+                        isinstance(x, ast.Name) and
+                        x.id in {v.id for v in st.value.elts}
+                        for x in ast.walk(t)) for t in st.targets[0].elts):
+                for t, v in zip(st.targets[0].elts, st.value.elts):
+                    out.append(ast.copy_location(
+                        ast.Assign(targets=[t], value=v), st))
+                ch = True
+            else:
+                out.append(st)
+        return out, ch
+
+    def try_list(stmts):
+        stmts, ch = split_tuples(stmts)
+        if ch:
+            return stmts, True
+        for i, st in enumerate(stmts):
+            if not (isinstance(st, ast.Assign) and len(st.targets) == 1
+                    and isinstance(st.targets[0], ast.Name)):
+                continue
+            t = st.targets[0].id
+            if not is_new(t):
+                continue
+            occ_after = sum(len(_name_occ(s2, t)) for s2 in stmts[i + 1:])
+            if occ_after + 1 != total(t) or occ_after == 0:
+                continue
+            last = max(k for k in range(i + 1, len(stmts))
+                       if _name_occ(stmts[k], t))
+            # ---- result copy  V = T  /  o.a = T
+            fin = stmts[last]
+            if isinstance(fin, ast.Assign) and len(fin.targets) == 1 and \
+                    isinstance(fin.value, ast.Name) and fin.value.id == t \
+                    and len(_name_occ(fin, t)) == 1:
+                tgt = fin.targets[0]
+                run = stmts[i + 1:last]
+                if isinstance(tgt, ast.Name) and tgt.id != t and \
+                        tgt.id not in nested and \
+                        not any(_name_occ(s2, tgt.id) for s2 in run) and \
+                        not _handler_reads(fnode, tgt.id):
+                    new = rename(stmts[i:last], t, ast.Name(id=tgt.id,
+                                                          ctx=ast.Load()))
+                    return stmts[:i] + new + stmts[last + 1:], True
+                if isinstance(tgt, ast.Attribute) and _pure_path(tgt) and \
+                        isinstance(st.value, ast.Attribute) and \
+                        ast.dump(_as_load(st.value)) == ast.dump(
+                            _as_load(tgt)) and \
+                        _quiet(run, tgt.attr):
+                    new = rename(run, t, _as_load(tgt))
+                    return stmts[:i] + new + stmts[last + 1:], True
+            # ---- entry copy  T = V
+            if isinstance(st.value, ast.Name) and st.value.id != t:
+                v = st.value.id
+                run = stmts[i + 1:last + 1]
+                g = cfg()
+                fin = stmts[last]
+                # the run's last statement may re-bind V from a value that
+                # reads T:  V = f(T)
+                fin_ok = not _name_occ(fin, v) or (
+                    isinstance(fin, ast.Assign) and len(fin.targets) == 1
+                    and isinstance(fin.targets[0], ast.Name) and
+                    fin.targets[0].id == v and
+                    not _name_occ(fin.value, v))
+                if v not in nested and v in locals_f and g and fin_ok and \
+                        not any(_name_occ(s2, v) for s2 in run[:-1]) and \
+                        _dead_after(g, st, v):
+                    new = rename(run, t, ast.Name(id=v, ctx=ast.Load()))
+                    return stmts[:i] + new + stmts[last + 1:], True
+        return stmts, False
+
+    changed = [False]
+
+    def do_list(stmts):
+        for st in stmts:
+            if isinstance(st, (ast.FunctionDef, ast.AsyncFunctionDef,
+                               ast.ClassDef)):
+                continue
+            for fld in ('body', 'orelse', 'finalbody'):
+                sub = getattr(st, fld, None)
+                if isinstance(sub, list):
+                    setattr(st, fld, do_list(sub))
+            for hd in getattr(st, 'handlers', []) or []:
+                hd.body = do_list(hd.body)
+        guard = 0
+        while guard < 10:
+            guard += 1
+            stmts, ch = try_list(stmts)
+            if not ch:
+                break
+            changed[0] = True
+            graph[0] = None
+        return stmts
+    fnode.body = do_list(fnode.body)
+    return changed[0]
+
+
+def _as_load(e):
+    r = clone(e)
+    r.ctx = ast.Load()
+    return r
+
+
+def _pure_path(e):
+    while isinstance(e, ast.Attribute):
+        e = e.value
+    return isinstance(e, ast.Name)
+
+
+def _quiet(run, attr):
+    """no call (other than pure builtins) and no `.attr` in the statements"""
+    for st in run:
+        for x in ast.walk(st):
+            if isinstance(x, ast.Attribute) and x.attr == attr:
+                return False
+            if isinstance(x, ast.Call) and not (
+                    isinstance(x.func, ast.Name) and
+                    x.func.id in _PURE_BUILTINS):
+                return False
+            if isinstance(x, (ast.Yield, ast.YieldFrom, ast.Await,
+                              ast.Return, ast.Raise)):
+                return False
+    return True
+
+
+def _handler_reads(fnode, name):
+    for x in ast.walk(fnode):
+        if isinstance(x, ast.Try):
+            for part in list(x.handlers) + list(x.finalbody):
+                for y in ast.walk(part):
+                    if isinstance(y, ast.Name) and y.id == name and \
+                            isinstance(y.ctx, ast.Load):
+                        return True
+    return False
+
 # ------------------------------------------------------------------ N3 --------
 
 def _is_generator(fnode):
@@ -696,7 +1037,12 @@ class Inliner:
         ret_e = None
         if rets:
             if len(rets) != 1 or rets[0] is not body[-1]:
-                return None
+                if as_generator:
+                    return None
+                tail = _tail_returns(body)
+                if tail is None:
+                    return None
+                return tail, _MULTI
             ret_e = rets[0].value
             body = body[:-1]
         return body, ret_e
@@ -706,6 +1052,83 @@ class Inliner:
         outer = self
         changed = [False]
         local_f = _local_names(f.node)
+        f_params = {a.arg for a in f.node.args.args +
+                    f.node.args.kwonlyargs + f.node.args.posonlyargs}
+        names_f = [{x.id for x in ast.walk(f.node)
+                    if isinstance(x, ast.Name)}]
+        nested_f = set()
+        for x in ast.walk(f.node):
+            if x is not f.node and isinstance(
+                    x, (ast.FunctionDef, ast.AsyncFunctionDef, ast.Lambda,
+                        ast.ClassDef)):
+                nested_f.update(y.id for y in ast.walk(x)
+                                if isinstance(y, ast.Name))
+        cfg_box = [None]
+
+        def graph():
+            if cfg_box[0] is None:
+                from . import cfg as _cfg
+                try:
+                    cfg_box[0] = _cfg.CFG(f.node)
+                except Exception:
+                    cfg_box[0] = False
+            return cfg_box[0]
+
+        def hoist(st):
+            """`use(.., helper(..), ..)` -> (`r = helper(..)`, `use(.., r,
+            ..)`) when nothing with an effect is evaluated before the helper
+            call; -> None otherwise"""
+            if isinstance(st, ast.Expr):
+                top = st.value
+            elif isinstance(st, (ast.Assign, ast.Return)):
+                top = st.value
+            else:
+                return None
+            if isinstance(top, ast.Yield):
+                top = top.value
+            if top is None:
+                return None
+            # descend through calls: pure callee path, pure earlier arguments
+            node = top
+            target = None
+            depth = 0
+            while isinstance(node, ast.Call) and depth < 4:
+                depth += 1
+                t = outer.resolve(f, node)
+                if t is not None and node is not getattr(st, 'value', None) \
+                        and _expr_form(t) is None and \
+                        outer.splice_form(t, as_generator=False) is not None:
+                    target = node
+                    break
+                if not _pure_path(node.func) or node.keywords:
+                    return None
+                nxt = None
+                for a in node.args:
+                    if isinstance(a, ast.Call):
+                        nxt = a
+                        break
+                    if not _arg_is_trivial(a):
+                        return None
+                if nxt is None:
+                    return None
+                node = nxt
+            if target is None:
+                return None
+            outer.counter += 1
+            nm = 'ret__h{}'.format(outer.counter)
+            pre = ast.copy_location(ast.Assign(
+                targets=[ast.Name(id=nm, ctx=ast.Store())], value=target),
+                st)
+
+            class H(ast.NodeTransformer):
+                def visit_Call(self, n):
+                    if n is target:
+                        return ast.copy_location(
+                            ast.Name(id=nm, ctx=ast.Load()), n)
+                    return self.generic_visit(n)
+            rest = H().visit(st)
+            ast.fix_missing_locations(pre)
+            return pre, rest
 
         def expand(st):
             """-> list of statements replacing st, or None"""
@@ -738,7 +1161,13 @@ class Inliner:
             elif isinstance(st, ast.Return) and \
                     isinstance(st.value, ast.Call):
                 call, mode = st.value, 'return'
-            if call is None:
+            if call is None or (mode in ('stmt', 'assign', 'return') and
+                                outer.resolve(f, call) is None):
+                hoisted = hoist(st)
+                if hoisted is not None:
+                    first = expand(hoisted[0])
+                    if first is not None:
+                        return first + [hoisted[1]]
                 return None
             t = outer.resolve(f, call)
             if t is None:
@@ -755,6 +1184,9 @@ class Inliner:
             body, ret_e = form
             if mode in ('assign', 'return') and ret_e is None:
                 return None
+            multi = ret_e is _MULTI
+            if multi:
+                ret_e = None
             if t.module is not f.module:
                 for b in body + ([ret_e] if ret_e is not None else []):
                     for x in ast.walk(b):
@@ -787,7 +1219,17 @@ class Inliner:
                         targets=[ast.Name(id=nm, ctx=ast.Store())],
                         value=clone(arg)))
                     sub[p] = ast.Name(id=nm, ctx=ast.Load())
-            rename = {v: v + tag for v in t_locals - params}
+            rename = {}
+            for v in t_locals - params:
+                if v in nested_f:
+                    rename[v] = v + tag
+                elif v not in names_f[0]:
+                    continue              # no such name here: keep it
+                elif v in local_f and v not in f_params and graph() and \
+                        _dead_after(graph(), st, v):
+                    continue              # the caller's value is dead here
+                else:
+                    rename[v] = v + tag
 
             class R(ast.NodeTransformer):
                 def visit_Name(self, n):
@@ -799,6 +1241,41 @@ class Inliner:
                         return ast.Name(id=rename[n.id], ctx=n.ctx)
                     return n
             new = [R().visit(clone(b)) for b in body]
+            if multi:
+                def tail(v):
+                    if mode == 'assign':
+                        if isinstance(v, ast.Name) and \
+                                len(st.targets) == 1 and isinstance(
+                                    st.targets[0], ast.Name) and \
+                                st.targets[0].id == v.id:
+                            return []                   # x = x
+                        return [ast.Assign(targets=clone(st.targets),
+                                           value=v)]
+                    if mode == 'return':
+                        return [ast.Return(value=v)]
+                    return [] if _pure_expr(v) else [ast.Expr(value=v)]
+
+                def put(stmts):
+                    res = []
+                    for b in stmts:
+                        if isinstance(b, ast.Return):
+                            res.extend(tail(b.value))
+                        elif isinstance(b, ast.If) and _has_return([b]):
+                            b.body = put(b.body)
+                            b.orelse = put(b.orelse)
+                            if not b.body and not b.orelse:
+                                if not _pure_expr(b.test):
+                                    res.append(ast.Expr(value=b.test))
+                                continue
+                            if not b.body:
+                                b.test = ast.UnaryOp(op=ast.Not(),
+                                                     operand=b.test)
+                                b.body, b.orelse = b.orelse, []
+                            res.append(b)
+                        else:
+                            res.append(b)
+                    return res
+                new = put(new)
             if mode == 'consume':
                 new = _replace_yields(new, st.target.id, st.body)
             if ret_e is not None:
@@ -816,6 +1293,9 @@ class Inliner:
                     ast.copy_location(x, st)
                 ast.fix_missing_locations(s2)
             changed[0] = True
+            for s2 in out:
+                names_f[0].update(x.id for x in ast.walk(s2)
+                                  if isinstance(x, ast.Name))
             return out or [ast.copy_location(ast.Pass(), st)]
 
         def do_list(stmts):
@@ -1470,8 +1950,11 @@ def n6_single_use_temps(fnode, keep=()):
                             tgt = stmts[j]
                             # inside a loop / comprehension the expression
                             # would be re-evaluated: only straight-line use
-                            ok = len(uses) == 1 and not isinstance(
-                                tgt, (ast.For, ast.While, ast.AsyncFor))
+                            ok = len(uses) == 1 and (not isinstance(
+                                tgt, (ast.For, ast.While, ast.AsyncFor)) or (
+                                isinstance(tgt, ast.For) and any(
+                                    x is uses[0]
+                                    for x in ast.walk(tgt.iter))))
                             if ok and isinstance(tgt, (ast.If, ast.With,
                                                        ast.Try)):
                                 # allowed only in the header expression
@@ -1503,6 +1986,142 @@ def n6_single_use_temps(fnode, keep=()):
     if not fnode.body:
         fnode.body = [ast.Pass()]
     return changed[0]
+
+
+# ------------------------------------------------------------------ N8 --------
+
+def n8_append_loops(fnode, base_hashes, keep=()):
+    """`v = []` / `for t in IT: [if C:] v.append(E)` that the pinned function
+    does not have  ->  `v = [E for t in IT if C]`  (the inverse of "unroll the
+    comprehension"); t must be dead after the loop and v must not be read by
+    the loop's own expressions"""
+    import hashlib
+    changed = [False]
+    graph = [None]
+
+    def cfg():
+        if graph[0] is None:
+            from . import cfg as _cfg
+            try:
+                graph[0] = _cfg.CFG(fnode)
+            except Exception:
+                graph[0] = False
+        return graph[0]
+
+    def h(st):
+        return hashlib.sha1(ast.dump(st).encode('utf-8', 'replace')) \
+            .hexdigest()[:12]
+
+    def match(a, b):
+        if not (isinstance(a, ast.Assign) and len(a.targets) == 1 and
+                isinstance(a.targets[0], ast.Name) and
+                isinstance(a.value, ast.List) and not a.value.elts):
+            return None
+        v = a.targets[0].id
+        if h(a) in base_hashes:
+            return None
+        if not (isinstance(b, ast.For) and not b.orelse and
+                len(b.body) == 1):
+            return None
+        inner = b.body[0]
+        conds = []
+        while isinstance(inner, ast.If) and not inner.orelse and \
+                len(inner.body) == 1:
+            conds.append(inner.test)
+            inner = inner.body[0]
+        if not (isinstance(inner, ast.Expr) and
+                isinstance(inner.value, ast.Call) and
+                isinstance(inner.value.func, ast.Attribute) and
+                inner.value.func.attr == 'append' and
+                isinstance(inner.value.func.value, ast.Name) and
+                inner.value.func.value.id == v and
+                len(inner.value.args) == 1 and not inner.value.keywords):
+            return None
+        elt = inner.value.args[0]
+        for e in [b.iter, elt] + conds:
+            if _name_occ(e, v):
+                return None
+            if any(isinstance(x, (ast.Yield, ast.YieldFrom, ast.Await,
+                                  ast.NamedExpr)) for x in ast.walk(e)):
+                return None
+        tnames = {x.id for x in ast.walk(b.target)
+                  if isinstance(x, ast.Name)}
+        g = cfg()
+        if not g:
+            return None
+        for t in tnames:
+            if not _dead_after_loop(g, b, t):
+                return None
+        comp = ast.ListComp(elt=elt, generators=[ast.comprehension(
+            target=b.target, iter=b.iter, ifs=conds, is_async=0)])
+        new = ast.Assign(targets=[a.targets[0]], value=comp)
+        ast.copy_location(new, a)
+        ast.fix_missing_locations(new)
+        return new
+
+    def do_list(stmts):
+        out = []
+        i = 0
+        while i < len(stmts):
+            st = stmts[i]
+            for fld in ('body', 'orelse', 'finalbody'):
+                sub = getattr(st, fld, None)
+                if isinstance(sub, list) and not isinstance(
+                        st, (ast.FunctionDef, ast.AsyncFunctionDef,
+                             ast.ClassDef)):
+                    setattr(st, fld, do_list(sub))
+            for hd in getattr(st, 'handlers', []) or []:
+                hd.body = do_list(hd.body)
+            new = match(st, stmts[i + 1]) if i + 1 < len(stmts) else None
+            if new is not None:
+                out.append(new)
+                changed[0] = True
+                graph[0] = None
+                i += 2
+                continue
+            out.append(st)
+            i += 1
+        return out
+    fnode.body = do_list(fnode.body)
+    return changed[0]
+
+
+def _dead_after_loop(graph, forstmt, var):
+    """var is not read after the `for` statement is left (nor on entry of a
+    later iteration: the loop re-binds it)"""
+    its = [n for n in graph.nodes if n.kind == 'iter' and n.ast is forstmt]
+    if not its:
+        return False
+    body_ids = {id(x) for st in forstmt.body for x in ast.walk(st)}
+    seen = set()
+    stack = []
+    for it in its:
+        stack.extend(m for (m, lab) in it.succ if lab != 'loop')
+    # exits by break: successors of body nodes that lie outside the loop
+    for n in graph.nodes:
+        if n.stmt is not None and id(n.stmt) in body_ids:
+            for (m, _l) in n.succ:
+                if m.stmt is None or (id(m.stmt) not in body_ids and
+                                      m not in its):
+                    stack.append(m)
+    while stack:
+        n = stack.pop()
+        if n.id in seen:
+            continue
+        seen.add(n.id)
+        loads = stores = False
+        for part in _node_parts(n):
+            for x in _outer_refs(part, var):
+                if isinstance(x.ctx, ast.Load):
+                    loads = True
+                else:
+                    stores = True
+        if loads:
+            return False
+        if stores:
+            continue
+        stack.extend(m for (m, _l) in n.succ)
+    return True
 
 
 # ------------------------------------------------------------------ N5 --------
@@ -1848,9 +2467,25 @@ def normalise(model, stats=None):
             n4 = True
         return names, attrs, n4
 
-    for _round in range(ROUNDS):
+    from . import canon
+    cond_tab = canon.load()
+    for _round in range(ROUNDS + 1):
         any_change = False
         todo = []
+        n7_touched = set()
+        for f in funcs:
+            try:
+                tab = cond_tab.get(f.module.relpath, {}).get(f.qualname)
+            except AttributeError:
+                tab = None
+            if tab and canon.n7_restore(f.node, tab):
+                count['N7'] = count.get('N7', 0) + 1
+                any_change = True
+                n7_touched.add(f.module.name)
+                ast.fix_missing_locations(f.node)
+        for m in model.modules.values():
+            if m.name in n7_touched:
+                _reparent(m.tree)
         for f in funcs:
             names, attrs, n4 = facts(f)
             used = names | attrs
@@ -1892,8 +2527,14 @@ def normalise(model, stats=None):
             if n2_alias_locals(f.node, keep, rebound_attrs(model)):
                 count['N2'] += 1
                 any_change = True
+            if n2b_rename_copies(f.node, keep):
+                count['N2b'] = count.get('N2b', 0) + 1
+                any_change = True
             if n6_single_use_temps(f.node, keep):
                 count['N6'] = count.get('N6', 0) + 1
+                any_change = True
+            if n8_append_loops(f.node, _stmt_hashes(f), keep):
+                count['N8'] = count.get('N8', 0) + 1
                 any_change = True
             if n4b_ifexp_assign(f.node, _stmt_hashes(f)):
                 count['N4b'] = count.get('N4b', 0) + 1
